@@ -244,12 +244,19 @@ structure Env where
   fault : Option Nat := none
   clampSeek : Bool := false
   allocOk : Nat → Bool := fun _ => true
+  /-- the first `read` at or beyond this offset returns `Ok(0)` although the stream goes on (a file
+  that is still being written, a pipe): `read_exact` / `alloc_read` must report `UnexpectedEof`;
+  `seek` is not affected -/
+  eofOnce : Option Nat := none
 
 /-- first offset that cannot be read -/
 def Env.lim (e : Env) : Nat :=
-  match e.fault with
-  | none => e.len
-  | some f => if f < e.len then f else e.len
+  let a := match e.fault with
+    | none => e.len
+    | some f => if f < e.len then f else e.len
+  match e.eofOnce with
+  | none => a
+  | some z => if z < a then z else a
 
 def mn (a b : Nat) : Nat := if a ≤ b then a else b
 
